@@ -448,6 +448,14 @@ def rule_x9(text, log):
     while prev != t:
         prev = t
         t = pat.sub(rep, t, count=1)
+    # `&x.m() op &y` (a method call result borrowed as left operand), e.g. `(&z2.invert() * &x2)`
+    pat2 = re.compile(r'&([a-z_][A-Za-z0-9_]*\.[a-z_][A-Za-z0-9_]*\(\)) ([-+*]) (&[a-z_][A-Za-z0-9_]*)\b')
+
+    def rep2(mm):
+        new = '(&%s).%s(%s)' % (mm.group(1), ops[mm.group(2)], mm.group(3))
+        log.append({'rule': 'X9', 'before': mm.group(0), 'after': new})
+        return new
+    t = pat2.sub(rep2, t)
     return t
 
 
@@ -672,7 +680,7 @@ def name_return(text, name):
     return text[:tstart] + ' (' + name + ': ' + ty + ') ' + text[tend:]
 
 
-def inject(text, sections, twin=False, ret='r'):
+def inject(text, sections, twin=False, ret='r', degraded=None):
     if "".join(sections.get('sig', [])).strip():
         text = name_return(text, ret)
     edits = []
@@ -692,6 +700,9 @@ def inject(text, sections, twin=False, ret='r'):
     for (k, binder), lines_ in sections.get('loops', {}).items():
         ls = loops(text)
         if k > len(ls):
+            if degraded is not None:
+                degraded.append('loop %d' % k)
+                continue
             raise LostAnchor("lost anchor: loop %d (function has %d loops)" % (k, len(ls)))
         kw, ob, cb = ls[k - 1]
         edits.append((ob, 1, "\n" + "\n".join(lines_) + "\n"))
@@ -700,7 +711,13 @@ def inject(text, sections, twin=False, ret='r'):
             edits.append((mm.end(), 0, " %s:" % binder))
     order = 2
     for anchor, lines_ in sections.get('at', []):
-        pos = resolve_anchor(text, anchor)
+        try:
+            pos = resolve_anchor(text, anchor)
+        except LostAnchor as e:
+            if degraded is None:
+                raise
+            degraded.append(anchor)      # the function was restructured: this hint is dropped, the contract stays
+            continue
         pre = ''
         if isinstance(pos, tuple):
             pos, pre = pos
@@ -813,6 +830,23 @@ def build_unit(template_text, expansions, twin=False):
             else:
                 props = saved_props
                 meta['dep_ranges'][-1][1] = cur_line()
+        elif d.startswith('consts '):
+            # every `const` item declared directly in a module (so that a constant the code starts to use is simply there)
+            path, flags = split_path_flags(d[7:])
+            exp = expansions[meta['profile']]
+            modit = exp.find(path)
+            skip = set((flags.get('except') or '').split(',')) if isinstance(flags.get('except'), str) else set()
+            for it in modit.children:
+                if it.kind != 'const' or it.name in skip:
+                    continue
+                text = strip_x1_x2(it.text())
+                if 'pub' in flags and not re.match(r'\s*pub ', text):
+                    text = re.sub(r'^(\s*)', r'\1pub ', text, count=1)
+                text = apply_rules(text, flags, meta['rules'], path + [it.name])
+                start = cur_line()
+                out.append(text)
+                meta['items'].append({'path': " / ".join(path + [it.name]), 'kind': 'const', 'lines': [start, cur_line() - 1],
+                                      'src_lines': [it.start + 1, it.end + 1]})
         elif d.startswith('item '):
             path, flags = split_path_flags(d[5:])
             exp = expansions[meta['profile']]
@@ -882,7 +916,14 @@ def build_unit(template_text, expansions, twin=False):
                 if not re.match(r'\s*pub ', text):
                     text = re.sub(r'^(\s*)', r'\1pub ', text, count=1)
                 meta['rules'].append({'rule': 'X11', 'fn': " / ".join(path), 'before': before, 'after': norm(text[:body_open(text)])})
-            text = inject(text, sections, twin=twin and 'notwin' not in flags, ret=flags.get('ret', 'r'))
+            degraded = []
+            text0 = text
+            text = inject(text, sections, twin=twin and 'notwin' not in flags, ret=flags.get('ret', 'r'), degraded=degraded)
+            if degraded:
+                # hints may build on one another (ghost lets): when one loses its anchor, all hints of this function are
+                # dropped and only its contract is kept
+                bare = {'sig': sections['sig'], 'loops': {}, 'at': [], 'attr': sections['attr'], 'hoist': sections['hoist']}
+                text = inject(text0, bare, twin=twin and 'notwin' not in flags, ret=flags.get('ret', 'r'))
             start = cur_line()
             out.append(text)
             p = flags['props'].split(',') if 'props' in flags else list(props)
@@ -890,7 +931,7 @@ def build_unit(template_text, expansions, twin=False):
                 p = []
             meta['fns'].append({'path': " / ".join(path), 'lines': [start, cur_line() - 1], 'props': p, 'dep': depmode,
                                 'src_lines': [it.start + 1, it.end + 1], 'notwin': 'notwin' in flags, 'has_body': body_open(text) >= 0,
-                                'has_sig': bool("".join(sections['sig']).strip()),
+                                'has_sig': bool("".join(sections['sig']).strip()), 'degraded': degraded,
                                 'n_loop_clauses': len(sections['loops']), 'n_proof_blocks': len(sections['at'])})
         elif d.startswith('forward '):
             path, flags = split_path_flags(d[8:])
